@@ -111,6 +111,23 @@ WHOLE_TEXT = {
     "C14": " Whole-system runs: health per link and globally after every audit record (on a replica) and on the returned engine, one on-disconnect call per notice, and exactly one account notice per account connection the exchange client dropped.",
 }
 
+# what the later rounds of seeded changes added to each simulator (appended to the level note)
+ADDED = {
+    "C01": " Later additions: reports carry any time in force and now and then StrategyId::unknown(); account fills naming a tracked order; liquidation events; a per-run quantity scale down to 1e-10; a restore step (instrument and asset states through JSON and back).",
+    "C03": " Later additions: a counting GlobalData on every simulated engine (checked after every event), requests naming another exchange than their instrument's, client order ids shared by two instruments, several error kinds for failed requests, filters through the public constructors (empty selections included), perpetuals with contract sizes, instrument specifications with the real DefaultStrategy, an exchange set whose names sort differently from their ids.",
+    "C04": " Later additions: snapshots with partial balances; events about instruments the engine does not track on that exchange; violations that need a second instrument universe in the same process are reproduced with the earlier scenario as recorded history.",
+    "C06": " Later additions: the real OrderBookMapSingle on a multi-instrument stream, update ids that change no level (empty depth updates), a bystander book fed by another, quiet connection.",
+    "C07": " Later additions: negative quantities acknowledged by the client; a perpetual margined in a third asset with rejections naming it; whole-system runs with account-stream outages longer than the whole backoff ladder.",
+    "C08": " Later additions: instrument specifications; sessions of 1 400-2 000 orders (operations tagged in nanosecond digits); re-used client order ids; letter-case variants of configured instrument names.",
+    "C09": " Later additions: liquidation events in the freshness model; partial timestamped balances in full snapshots; the restore step of C01.",
+    "C10": " Later additions: a late-joining replica seeded from a mid-run snapshot (fifth execution); timestamps 80 years ahead of the machine's clock.",
+    "C12": " Later additions: merge input fed through forward_to + UnboundedRx; a fifth sub-batch over the real MockExecution client's broadcast-backed account connection with bursts beyond its capacity; a whole-system block (every 100th run) with failing re-initialisations of the execution manager's account stream.",
+    "C14": " Later additions: connectivity, trading and instrument state persisted to JSON and restored mid-run; ExchangeOffline among the error kinds; the market side of the feed served by the real MarketDataInMemory.",
+    "C15": " Later additions: perpetuals with contract size 10 / 0.01; restore of the instrument states with equality check.",
+    "C19": " Later additions: as for C03 (empty filter selections, instrument specifications + real DefaultStrategy, shared client order ids).",
+    "C20": " Later additions: non-default initial global data, events labelled with a second tracked venue, rotating instrument sets with a refused-order oracle; violations that need an earlier backtest in the same process are reproduced with it as recorded history.",
+}
+
 PENDING = {k: "not claimed yet: its simulator (DESIGN.md section 5) is still under construction; will be claimed once committed and clean on the unchanged tree" for k in ["C03","C04","C06","C07","C08","C10","C12","C14","C15","C19","C20"]}
 
 
@@ -120,6 +137,7 @@ def main():
     for pid in sorted(BUILT):
         sim, ref, technique, text, note = BUILT[pid]
         engine = f"simcheck/sim_{sim.lower()}"
+        note += ADDED.get(pid, "")
         if pid in WHOLE:
             technique += WHOLE_TECH.format(n=WHOLE[pid])
             text += WHOLE_TEXT[pid]
